@@ -33,7 +33,7 @@ ASSUMPTIONS = [
     "closeness 1e-8",
 ]
 DEGRADED = set()
-TOL = 1e-8
+TOL = 1e-10
 MARGIN = 1e-6
 
 
@@ -145,10 +145,10 @@ def _model(pos, y, d):
     return sel, np.array(hull)
 
 
-def _fit(X, y, low):
+def _fit(X, y, low, tolerance=None):
     from skmatter.sample_selection import DirectionalConvexHull
 
-    m = DirectionalConvexHull(low_dim_idx=low)
+    m = DirectionalConvexHull(low_dim_idx=low) if tolerance is None else DirectionalConvexHull(low_dim_idx=low, tolerance=tolerance)
     m.fit(X, y)
     return m
 
@@ -170,7 +170,7 @@ def check(case):
     r.states = 0
     r.transitions = 0
 
-    def judge_fit(tag, X, yy, low, sel_want, hull_want, scale_y=1.0, used=False):
+    def judge_fit(tag, X, yy, low, sel_want, hull_want, scale_y=1.0, used=False, tolerance=None):
         with warnings.catch_warnings():
             warnings.simplefilter("ignore")
             try:
@@ -183,7 +183,7 @@ def check(case):
                     m.score_samples(X[::-1].copy(), yo)
                     m.fit(X, yy)
                 else:
-                    m = _fit(X, yy, low)
+                    m = _fit(X, yy, low, tolerance)
                 dist = np.asarray(m.score_samples(X, yy), float)
                 got = sorted(int(i) for i in m.selected_idx_)
             except Exception as e:
@@ -254,6 +254,20 @@ def check(case):
                     if res.shape != (n, n_high) or np.abs(res[sel]).max() > 1e-7:
                         r.fail("selected-sample-has-high-dimensional-residual", "layout high=%d: %s" % (n_high, np.round(res[sel], 9).tolist() if res.shape == (n, n_high) else res.shape))
                         return r
+    # ---- a coarser (non-default) tolerance with steep targets: the hull itself must not change
+    judge_fit("tolerance=1e-3, y -> 1000 y", X0, 1000.0 * y, list(range(d)), sel, 1000.0 * hull, scale_y=1e7, tolerance=1e-3)
+    if r.violations:
+        return r
+    # ---- single-precision features (a legal input dtype): the targets keep their precision
+    X32 = X0.astype(np.float32)
+    pos32 = X32[:, :d].astype(float)
+    y32 = 1000.0 * y + 0.123456789 * np.arange(1, n + 1)
+    if _general_position(pos32, y32, d):
+        mod32 = _model(pos32, y32, d)
+        if mod32 is not None:
+            judge_fit("float32 features", X32, y32, list(range(d)), mod32[0], mod32[1], scale_y=1000.0)
+            if r.violations:
+                return r
     # ---- positive affine maps of y: same selection, distances scale
     for a, b in ((2.0, 1.0), (0.5, -3.0)):
         judge_fit("affine y -> %g y + %g" % (a, b), X0, a * y + b, list(range(d)), sel, a * hull + b, scale_y=a)
